@@ -58,7 +58,10 @@ NUMS = [2, 3, 5, 7, 2, 3, 5, 7, 0, 1, 4, 6, 11, 12]
 MATS = {"ma": "[1 2; 3 4]", "mb": "[2 0; 1 3]", "mc": "[0 1; 5 2]", "md": "[3 1; 4 1]", "me": "[1 1; 0 2]", "mf": "[2 5; 7 3]"}
 BMATS = {"ba": "[true false; false false]", "bb": "[true true; false true]", "bc": "[false true; true true]",
          "bd": "[false false; true false]"}
-VARS = dict(MATS); VARS.update(BMATS)
+# scalar variables whose values make floating-point addition and multiplication visibly NON-associative: a chain of
+# equal-precedence operators over them has a different value under another grouping even when every operator is `+`
+SENS = {"sa": "0.1", "sb": "0.2", "sc": "0.3", "sd": "1e16", "se": "-1e16", "sf": "1", "sg": "0.7", "sh": "1e-16", "si": "3", "sj": "1e308"}
+VARS = dict(MATS); VARS.update(BMATS); VARS.update(SENS)
 
 
 # ---------------------------------------------------------------- formulas as python data
@@ -332,6 +335,17 @@ def generate(tier, rng):
             tags = dict(stream="chain-small", typed=1)
         tags.update(nops=len(f) // 2, flavour=flavour)
         items.append((f, tags))
+    # 3b. chains of ONE precedence level over rounding-sensitive scalars (the model does not value them: the binding
+    #     comparison is that the unparenthesised text and every parenthesised reading of it agree bit for bit)
+    for _ in range(1500 if thorough else 160):
+        n = rng.randint(2, 6)
+        level = rng.choice([["add"], ["add"], ["add", "subtract"], ["multiply"], ["multiply", "divide"], ["subtract"], ["divide"]])
+        f = []
+        for i in range(n + 1):
+            f.append(("a", ["neg"] if rng.random() < 0.1 else [], ("var", rng.choice(sorted(SENS))), False))
+            if i < n:
+                f.append(rng.choice(level))
+        items.append((f, dict(stream="chain-sensitive", nops=n, typed=1, flavour="scalar", level="/".join(level))))
     # 4. explicit parentheses in non-default positions
     for _ in range(3000 if thorough else 240):
         flavour = "scalar" if rng.random() < 0.75 else "matrix"
